@@ -403,7 +403,7 @@ PROPS["C47"] = dict(
     level="fault_enumeration",
     technique="property-based testing (rapid) over option vectors and server personalities in a testing/synctest bubble, with an exhaustive enumeration of the failing setup step per vector (one run per setup command seen in the fault-free run, that command answered by an error on every new connection); oracle = session state of the fake server captured right before each connection's first user command, compared with the configuration",
     level_text="Generated vectors over credentials (static, password only, AuthCredentialsFn with rotating users), ClientName, SelectDB, ClientTrackingOptions (OPTIN/OPTOUT/BCAST/PREFIX/NOLOOP), DisableCache, AlwaysRESP2, ClientNoTouch, ClientNoEvict, ClientSetInfo (default/custom/disabled), Standalone.EnableRedirect and ReplicaOnly against a RESP3 server, a server without HELLO and a server that answers HELLO 3 with protocol 2. One user command goes through the pipelining connection, the blocking pool, a dedicated client and the stream pool; each connection's authenticated user, name, database, tracking mode/prefixes/NOLOOP, NO-TOUCH, NO-EVICT, READONLY, CAPA, library info and protocol must equal the configuration before its first user command. For every vector every setup command is then failed in turn: READONLY and CLIENT SETINFO failures must be tolerated, every other failure must fail NewClient and every call with no user command executed.",
-    level_note="The fake derives session state semantically, so command order does not matter. ReplicaOnly is rejected for single clients and is therefore only exercised together with Standalone.EnableRedirect (standalone client). A rejected HELLO with a text other than 'unknown command' may either fall back or fail; a step that is sent again later on the same connection (RESP2 fallback) may be tolerated. With a server without HELLO that requires AUTH, ClientNoTouch/ClientNoEvict/EnableRedirect make the connection fail (CLIENT ... is sent before AUTH in the RESP3 attempt): accepted as a failed connection, not asserted. Cluster and sentinel handshakes are not covered here. " + LIMITS,
+    level_note="The fake derives session state semantically, so command order does not matter. ReplicaOnly is rejected for single clients and is therefore only exercised together with Standalone.EnableRedirect (standalone client). Failing steps are answered with a generated error text (ERR, NOPERM, LOADING, NOPROTO, WRONGPASS or the unknown-command text). A rejected HELLO 3 probe with a text other than 'unknown command' may either fall back or fail; the HELLO 2 of the RESP2 setup batch is tolerated only when rejected as an unknown command and must fail the connection for any other error; a step that is sent again later on the same connection (RESP2 fallback) may be tolerated. With a server without HELLO that requires AUTH, ClientNoTouch/ClientNoEvict/EnableRedirect make the connection fail (CLIENT ... is sent before AUTH in the RESP3 attempt): accepted as a failed connection, not asserted. Cluster and sentinel handshakes are not covered here. " + LIMITS,
     units=[U("harness", "props", "TestVerif_C47_Setup", T(600, timeout=300), T(3000, shards=16, timeout=1500), variants=QUEUES)],
 )
 
